@@ -1,4 +1,5 @@
 import NurbsVerif.Model.Shape
+import NurbsVerif.Model.Knots2
 import NurbsVerif.Driver.Parse
 /- shape parsing / printing and the knot-operation ops (C04 …) -/
 namespace Drv
@@ -49,8 +50,49 @@ def insSeq (strict : Bool) : Shape Rat → List String → Option String
       else if strict then return "ERR" else insSeq strict res.1 rest
   | _, _ => none
 
+/-- one request of a knot-operation script -/
+def applyReq (S : Shape Rat) : List String → Option ((Shape Rat × Bool) × List String)
+  | "I" :: ps :: ns :: chk :: rest => do
+      let params ← parseOptList ps
+      let nums ← parseNats ns
+      if params.length != S.pdim || nums.length != S.pdim then none
+      if (List.range S.pdim).any (fun d => match params.getD d none with | some u => !inDomS S d u | none => false) then none
+      return (insertKnot S params nums tolMult (chk == "1"), rest)
+  | "R" :: ps :: ns :: chk :: rest => do
+      let params ← parseOptList ps
+      let nums ← parseNats ns
+      if params.length != S.pdim || nums.length != S.pdim then none
+      if (List.range S.pdim).any (fun d => match params.getD d none with | some u => !inDomS S d u | none => false) then none
+      return (removeKnot S params nums tolMult (tolRemove * tolRemove) (chk == "1"), rest)
+  | "F" :: ds :: rest => do
+      let dens ← parseNats ds
+      if dens.length != S.pdim then none
+      return (refineKnotvector S dens tolMult, rest)
+  | _ => none
+
+/-- a script of requests (`I` insert, `R` remove, `F` refine); `strict`: an exception aborts the
+    script with `ERR`; otherwise (method level) the exception is swallowed and the script continues
+    with whatever state the object has -/
+def runScript (strict : Bool) : Nat → Shape Rat → List String → Option String
+  | _, S, [] => some (showShape S)
+  | 0, _, _ => none
+  | fuel+1, S, toks =>
+      match applyReq S toks with
+      | none => some "ERR"
+      | some ((S', ok), rest) =>
+          if ok then runScript strict fuel S' rest
+          else if strict then some "ERR" else runScript strict fuel S' rest
+
 def handleShape (toks : List String) : Option String :=
   match toks with
+  | "ops" :: rest => do
+      let (S, rest) ← parseShape rest
+      if !shapeOk S then return "ERR"
+      runScript true rest.length S rest
+  | "opsm" :: rest => do
+      let (S, rest) ← parseShape rest
+      if !shapeOk S then return "ERR"
+      runScript false rest.length S rest
   | "ins" :: rest => do
       let (S, rest) ← parseShape rest
       if !shapeOk S then return "ERR"
@@ -59,6 +101,28 @@ def handleShape (toks : List String) : Option String :=
       let (S, rest) ← parseShape rest
       if !shapeOk S then return "ERR"
       insSeq false S rest
+  | "split" :: rest => do
+      let (S, rest) ← parseShape rest
+      match rest with
+      | [dir, u] =>
+          let dir ← dir.toNat?; let u ← parseRat u
+          if !shapeOk S || dir ≥ S.pdim then return "ERR"
+          match splitDir S dir u tolMult with
+          | some (a, b) => return s!"{showShape a} # {showShape b}"
+          | none => return "ERR"
+      | _ => none
+  | "decomp" :: rest => do
+      let (S, rest) ← parseShape rest
+      match rest with
+      | [dirs] =>
+          if !shapeOk S then return "ERR"
+          let fuelOf (d : Nat) (T : Shape Rat) := (T.kv d).length
+          let pieces : List (Shape Rat) :=
+            if dirs == "u" then decomposeDir 0 tolMult (fuelOf 0 S) S
+            else if dirs == "v" then decomposeDir 1 tolMult (fuelOf 1 S) S
+            else (decomposeDir 0 tolMult (fuelOf 0 S) S).flatMap (fun T => decomposeDir 1 tolMult (fuelOf 1 T) T)
+          return " # ".intercalate (pieces.map showShape)
+      | _ => none
   | _ => none
 
 end Drv
